@@ -8,7 +8,7 @@
    * process-wide and lazily written state (registry, config, priority counter, regex caches, lazy cache, locale
      table): the access table regenerated from the sources (`Gozod.Gen.LockSets.table`) is race-free — any two
      accesses to one location are both reads, both atomic, ordered by one sync.Once, or inside critical sections
-     of one mutex — except for the two locations in `knownRacy`, each with a witness.
+     of one mutex — except for the location in `knownRacy`, with a witness.
   Not modelled (trusted): the Go memory model, sync primitives, the scheduler; deadlock freedom and
   "result equals the run-alone result" are checked only by the -race harness.
 -/
@@ -73,8 +73,19 @@ theorem conflicts_complete (t : List Access) (h : conflicts t = []) : raceFree t
 /-- the table is not empty after the exclusion (the theorem is not vacuous) -/
 example : (without knownRacy Gen.LockSets.table).length ≥ 10 := by decide
 
-/-- **Witness**: `locales.RegisterLocale` writes the global locale table with no lock while the formatters read it. -/
-theorem locales_unsynchronised : raceFree (only "locales.DefaultLocales" Gen.LockSets.table) = false := by decide
+/-- the access table of the locale map before `fix: guard DefaultLocales with a RWMutex` -/
+def legacyLocales : List Access := [
+  ⟨"locales.AvailableLocales", "locales.DefaultLocales", false, .none⟩,
+  ⟨"locales.LocaleFormatter", "locales.DefaultLocales", false, .none⟩,
+  ⟨"locales.RegisterLocale", "locales.DefaultLocales", true, .none⟩,
+  ⟨"locales.ValidateLocaleList", "locales.DefaultLocales", false, .none⟩]
+
+/-- **Witness** (legacy code): `locales.RegisterLocale` wrote the global locale table with no lock while the formatters read it. -/
+theorem locales_unsynchronised : raceFree legacyLocales = false := by decide
+
+/-- the locale table is now accessed under one RWMutex, writers in W mode -/
+theorem locales_synchronised : raceFree (only "locales.DefaultLocales" Gen.LockSets.table) = true ∧
+    (only "locales.DefaultLocales" Gen.LockSets.table).length ≥ 4 := by decide
 
 /-- **Witness**: every chaining call on a lazy schema reads the lazily resolved inner schema (`cloneState`) with no
     synchronisation, while the first Parse writes it inside `once.Do`. -/
